@@ -127,6 +127,9 @@ func cmdVCs(args []string) int {
 					bad++
 				}
 				fmt.Printf("%s %-70s %-8s %-7s %.2fs  %s [%s]\n", mark, vc.Name, res.Status, res.Solver, res.Seconds, vc.Src, vc.Trace)
+				if res.Status == "error" {
+					fmt.Println("    solver said:", firstLines(res.Output, 3))
+				}
 			}
 		}
 	}
